@@ -216,9 +216,18 @@ def optLoadOp : Handler := fun args =>
                 ("vraw", Json.str (vclass (CV.Validate.validate t))),
                 ("vcast", Json.str (vclass (CV.Validate.validate (CV.Validate.castTop t))))]
 
+/-- the cast in front of the structural stage: `castTop` against the real `interp.Interpolate` with the loader's cast table,
+and the verdicts of `validate` on the raw and on the cast tree -/
+def castValidateOp : Handler := fun args =>
+  match CV.Val.ofJson (getObj args "tree") with
+  | .error e => Json.mkObj [("bad", e)]
+  | .ok t =>
+    Json.mkObj [("castable", Json.bool (CV.Validate.castableTop t)), ("cast", CV.Val.toJson (CV.Validate.castTop t)),
+                ("vraw", voutJson (CV.Validate.validate t)), ("vcast", voutJson (CV.Validate.validate (CV.Validate.castTop t)))]
+
 def handlers : List (String × Handler) :=
   [("c10.consistency", consistency), ("c10.cycle", cycle), ("c10.consistent", consistent),
    ("c10.cycleBatch", cycleBatch), ("c10.validate", validateOp), ("c10.normDeps", normDepsOp), ("c10.cyclePath", cyclePathOp),
-   ("c10.glue", glueOp), ("c10.mergeValidate", mergeValidateOp), ("c10.optload", optLoadOp)]
+   ("c10.glue", glueOp), ("c10.mergeValidate", mergeValidateOp), ("c10.optload", optLoadOp), ("c10.castValidate", castValidateOp)]
 
 end CV.Ops.C10
